@@ -295,6 +295,10 @@ def _block_eigh_projector(p_block: np.ndarray, verbose: bool = False):
         cmplt = cmplt[:, :col_id_cmplt]
         p_block_rem = cmplt.T @ p_block @ cmplt
         eigvecs = eigh_projector(p_block_rem, verbose=verbose)
+        if eigvecs is None:
+            # The trace of the complementary problem rounds to zero (it can differ
+            # from trace(p_block) by rounding, e.g. at 0.5): no unit eigenvector left.
+            eigvecs = np.zeros((p_block_rem.shape[0], 0), dtype="double")
         if verbose:
             print(eigvecs.shape[1], "eigenvectors are found.", flush=True)
         if eigvecs.shape[1] > 0:
